@@ -49,7 +49,8 @@ def material_case(draw):
         extra = [[f, draw(prop)] for f in f2]
     return {"kind": "material", "comps": comps, "norm": draw(st.sampled_from(["number", "mass"])),
             "natural": draw(st.booleans()), "form": draw(st.sampled_from(["dict", "string"])),
-            "scale": draw(st.sampled_from([1e-3, 0.5, 2.0, 10.0, 1e3, 7.0])), "op": op, "extra": extra}
+            "scale": draw(st.sampled_from([1e-3, 0.5, 2.0, 10.0, 1e3, 7.0, 1e-6, 1e-9, 1e-12, 1e9])), "op": op, "extra": extra,
+            "subset": draw(st.lists(st.integers(0, 5), min_size=1, max_size=3, unique=True))}
 
 
 @st.composite
@@ -198,6 +199,20 @@ def check_material(case, v):
         return
     if not (close(sums[0], 100.0, 1e-9) and close(sums[1], 100.0, 1e-9)):
         return v.fail("sum-row", f"{text}: 'sum' row x={sums[0]!r} X={sums[1]!r}")
+    # a selection of components reports the same fractions for the selected rows
+    sub = [names[i] for i in sorted(set(i % len(names) for i in case.get("subset", [0])))]
+    try:
+        tab = mat.data_composite(components=list(sub), quantity=False)
+        for nme in sub:
+            i = names.index(nme)
+            if not (close(float(tab[nme].x), ex[i], 1e-9, 1e-12) and close(float(tab[nme].X), eX[i], 1e-9, 1e-12)):
+                return v.fail("subset", f"{text}.data_composite(components={sub}): {nme} x={tab[nme].x!r} X={tab[nme].X!r}, "
+                                        f"expected x={ex[i]!r} X={eX[i]!r}")
+        extra_rows = [k for k in tab.keys() if k not in sub and k not in ("avg", "sum")]
+        if extra_rows:
+            return v.fail("subset", f"{text}.data_composite(components={sub}) also lists {extra_rows}")
+    except Exception as e:
+        return v.fail("material-raised", f"{text}.data_composite(components={sub}) raised {e!r}")
     # scaling invariance
     c = case["scale"]
     try:
